@@ -263,6 +263,13 @@ func newKV(elem, capHint int) kvAPI {
 				return *p
 			}}
 	}
+	if elem == 4 {
+		// a set: zero-size values (the generator stores value 0 only, and leaves GetWithMap out,
+		// whose "untouched placeholder" cannot be told from a stored value here)
+		id := func(v int) int { return v }
+		return &kvOf[int, struct{}]{m: mapz.NewSafeKV[int, struct{}](capHint), ek: id, dk: id,
+			ev: func(int) struct{} { return struct{}{} }, dv: func(struct{}) int { return 0 }}
+	}
 	id := func(v int) int { return v }
 	return &kvOf[int, int]{m: mapz.NewSafeKV[int, int](capHint), ek: id, dk: id, ev: id, dv: id}
 }
@@ -377,7 +384,7 @@ func gen(r *sim.Rng, tier string) *sim.Case {
 		c.Params["init_pct"] = r.Range(50, 100)
 	}
 	c.Params["nkeys"] = nKeys
-	c.Params["elem"] = r.Pick(6, 3, 3, 2) // key/value types: int/int, string/string, struct/three-word struct, interface/pointer
+	c.Params["elem"] = r.Pick(6, 3, 3, 2, 2) // key/value types: int/int, string/string, struct/three-word struct, interface/pointer, int/struct{}
 	if nKeys <= 32 {
 		c.Params["init_mask"] = r.N(1 << nKeys)
 	}
@@ -396,6 +403,9 @@ func gen(r *sim.Rng, tier string) *sim.Case {
 		}
 	}
 	w[1+r.N(3)] += 2 // always some writer
+	if c.Params["elem"] == 4 {
+		w[12] = 0 // GetWithMap
+	}
 	total := 0
 	zeroStored := false
 	for t := 0; t < nT; t++ {
@@ -406,6 +416,9 @@ func gen(r *sim.Rng, tier string) *sim.Case {
 			op := sim.Op{Op: opNames[k], K: r.N(nKeys), V: (t+1)<<8 | (i + 1)}
 			if !zeroStored && r.Pct(4) {
 				op.V, zeroStored = 0, true // the zero value of the value type is a value like any other
+			}
+			if c.Params["elem"] == 4 {
+				op.V = 0
 			}
 			switch op.Op {
 			case "Delete":
@@ -476,6 +489,9 @@ func build(c *sim.Case) enga.Instance {
 		}
 		if present {
 			v := 0xF00 + k
+			if c.P("elem") == 4 {
+				v = 0
+			}
 			x.m.Set(k, v)
 			x.init[k] = v
 		}
